@@ -12,6 +12,7 @@ mod eng_par;
 mod eng_rdf;
 mod eng_sched;
 mod eng_snap;
+mod eng_spill;
 mod eng_store;
 mod eng_twin;
 mod eng_txm;
